@@ -118,9 +118,23 @@ def run_job(job):
         g = vars(crypto)
         return [g.get("__AES128"), g.get("__PublicEccKey"), g.get("__PrivateEccKey"), g.get("__random_bytes")]
 
+    from vlib import common as _common
+    from bec2format import hwcids, configid
+
+    def snapshot():
+        try:
+            with sym.NoTracing():
+                return _common.global_snapshot([bf, b2, hwcids, configid])
+        except BaseException as e:
+            if type(e).__name__ != "CrossHairInternal":
+                raise
+            # a symbolic value was stored in global state: that is a change in itself
+            return [("unreadable global state", type(e).__name__)]
+
     def call(fn, vals, tag):
         """run a parser call; True iff it returns or raises an allowed class"""
         reg = registry()
+        snap = snapshot()
         NONDET[0] = True
         try:
             fn()
@@ -132,6 +146,11 @@ def run_job(job):
         NONDET[0] = False
         if [a is b for a, b in zip(reg, registry())] != [True] * 4:
             runner.record_witness(exc="registry changed", where=tag, **vals)
+            return False
+        after = snapshot()
+        if after != snap:
+            diff = [x[:3] for x in after if x not in snap][:3]
+            runner.record_witness(exc="global state changed", msg=str(diff)[:150], where=tag, **vals)
             return False
         return True
 
@@ -280,7 +299,7 @@ def run_job(job):
                     break
             vals = [sym.sym_int("b%d" % i, 0, 256) for i in range(L)]
             for v in vals:
-                sym.assume(z3.Or([sym.expr_of(v) == c for c in (0, 1, 2, 0x80, 0xB6)]))
+                sym.assume(z3.Or([sym.expr_of(v) == c for c in (0, 1, 2, 0x80, 0xB6, 0x23)]))
             data = bytes(vals)
             return call(lambda: bf.pfid2_filter_to_str(data), dict(data=data), "pfid2_filter_to_str")
 
@@ -410,6 +429,16 @@ def replay(job):
             r["detail"] += " | BF2 text %r" % T
         return r or dict(reproduced=False)
     if kind == "pfid2":
+        from vlib import common as _common
+        from bec2format import hwcids, configid
+
         data = w.get("data", b"\x01\x01")
-        return run(lambda: bf.pfid2_filter_to_str(data), "pfid2_filter_to_str") or dict(reproduced=False)
+        before = _common.global_snapshot([bf, b2, hwcids, configid])
+        r = run(lambda: bf.pfid2_filter_to_str(data), "pfid2_filter_to_str")
+        if r:
+            return r
+        after = _common.global_snapshot([bf, b2, hwcids, configid])
+        if before != after:
+            return dict(reproduced=True, signature="C14:pfid2_filter_to_str:global state changed", detail="pfid2_filter_to_str(%s) changed %s" % (data.hex(), [x[:2] for x in after if x not in before][:3]))
+        return dict(reproduced=False)
     return dict(reproduced=False)
